@@ -305,7 +305,69 @@ def r6(ctx):
     ctx.floor(R, 2)
 
 
+def r7(ctx):
+    R = "C16-R7"
+    ctx.rule(R, "(a) the peer's window is taken only from a segment that is not older than what was already processed: in "
+                "handle_established the write Tcb::snd_wnd := segment.window hangs on a comparison of the segment's ack number with "
+                "Tcb::snd_una - an ACK overtaken on the wire describes a window the peer may have closed since; (b) segment_one makes "
+                "progress in every iteration: each operand of the min chain that cuts the payload (unsent, MSS, remaining window) is "
+                "tested `> 0` before a data segment is built - a zero-length data segment does not advance snd_nxt and the loop never ends")
+    he = ctx.body(R, "turmoil_net::kernel::tcp::handle_established")
+    if he:
+        ws = [(bb, s) for bb, i, s in he.all_stmts() if place_last_field(s["p"]) == T + "snd_wnd" and s["r"]["k"] == "use"
+              and "field:turmoil_net::kernel::packet::TcpSegment::window" in Slicer(ctx.w).atoms(he, s["r"]["o"])]
+        fresh = []
+        for sbb, te, fe, o in guards_on(he, lambda o: True):
+            at = Slicer(ctx.w).atoms(he, he.term(sbb)["d"])
+            if "field:turmoil_net::kernel::packet::TcpSegment::ack" in at and "field:" + T + "snd_una" in at:
+                fresh.append((sbb, te, fe))
+        for bb, s in ws:
+            ok = any(he.dominated_by_any(bb, edges=te) or he.dominated_by_any(bb, edges=fe) for sbb, te, fe in fresh)
+            ctx.inst(R, "handle_established:window-from-fresh-ack", ok, s["s"], "snd_wnd follows only ACKs that are not behind snd_una" if ok else
+                     "snd_wnd is overwritten from every ACK-flagged segment, stale ones included: ACKs delivered out of order (windows 3000 / 2000 / 1000 / 0 "
+                     "reversed) re-open a window the peer has closed and the sender puts 3 x 1000 bytes in flight against an advertised window of 0")
+        if not ws and ctx.strict:
+            ctx.bad(R, "handle_established:window-from-fresh-ack", he.span, "no write snd_wnd := segment.window found")
+    so = ctx.body(R, "turmoil_net::kernel::tcp::segment_one")
+    if so:
+        def min_leaves(op, depth=0):
+            o = origin(so, op)
+            if o["k"] == "call" and re.search(r"::min$", o["t"]["f"]) and depth < 6:
+                return [x for a in o["t"]["args"] for x in min_leaves(a, depth + 1)]
+            return [op]
+
+        def key(o):
+            while o["k"] == "cast":
+                o = o["o"]
+            if o["k"] in ("call", "bin", "discr", "ref", "agg"):
+                return (o["k"], o.get("bb"))
+            if o["k"] == "place":
+                return ("place", str(o["p"]))
+            return (o["k"], id(o))
+        cps = list(so.calls(re.compile(r"^bytes::Bytes::copy_from_slice$")))
+        pos = {}
+        for sbb, te, fe, o in guards_on(so, lambda o: o["k"] == "bin" and o["op"] in ("Gt", "Ne") and (op_const(o["b"]) or {}).get("v") == 0):
+            pos.setdefault(key(origin(so, o["a"])), []).extend(te)
+        for cbb, ct in cps:
+            # the length of the slice: the last min call feeding the range end
+            mins = [t for bb, t in so.calls(re.compile(r"::min$")) if so.dominated_by_block(cbb, bb)]
+            if not mins:
+                continue
+            leaves = min_leaves({"c": mins[-1]["d"]})
+            missing = []
+            for lf in leaves:
+                k = key(origin(so, lf))
+                if not (k in pos and so.dominated_by_any(cbb, edges=pos[k])):
+                    at = Slicer(ctx.w).atoms(so, lf)
+                    missing.append("MSS" if any("mss_for" in a for a in at) else "remaining window" if "field:" + T + "snd_wnd" in at else "unsent")
+            ctx.inst(R, "segment_one:every-segment-carries-bytes", not missing, ct["s"], "unsent, MSS and the remaining window are all positive when a data segment is cut" if not missing else
+                     f"a data segment is cut to min(..) without testing {missing} > 0: with an MTU no larger than the headers (IPv6 with mtu 60) the MSS is 0, the segment is empty, "
+                     "snd_nxt does not advance and segment_one emits segments forever")
+    ctx.floor(R, 2)
+
+
 def run(ctx):
+    r7(ctx)
     r6(ctx)
     r1(ctx)
     r2(ctx)
